@@ -40,24 +40,25 @@ var c17PlainWords = []string{"voilà", "Åse", "😅", "naïveté", "ａｂ", "l
 
 func (c17) Thresholds(tier string) map[string]int64 {
 	th := map[string]int64{
-		"commands":                   15000,
-		"word:boolean":               400,
-		"word:number":                1200,
-		"word:negative-number":       500,
-		"word:hostile-string":        5000,
-		"word:plain-string":          2000,
-		"arg:expression-number":      500,
-		"arg:expression-boolean":     500,
-		"arg:expression-string":      500,
-		"sep:tab":                    2000,
-		"sep:run-of-blanks":          2000,
-		"sep:mixed":                  1000,
-		"name:keyword-prefixed":      4000,
-		"name:multi-byte":            1000,
-		"unregistered-name-is-error": 500,
-		"stop-not-dispatched":        500,
-		"zero-arguments":             500,
-		"k3-commands":                500,
+		"commands":                        15000,
+		"word:boolean":                    400,
+		"word:number":                     1200,
+		"word:negative-number":            500,
+		"word:hostile-string":             5000,
+		"word:plain-string":               2000,
+		"arg:expression-number":           500,
+		"arg:expression-boolean":          500,
+		"arg:expression-string":           500,
+		"sep:tab":                         2000,
+		"sep:run-of-blanks":               2000,
+		"sep:mixed":                       1000,
+		"name:keyword-prefixed":           4000,
+		"name:multi-byte":                 1000,
+		"unregistered-name-is-error":      500,
+		"stop-not-dispatched":             500,
+		"zero-arguments":                  500,
+		"k3-commands":                     500,
+		"host-handler-registered-as-wait": 800,
 	}
 	for _, w := range c17HostileWords {
 		th["hostile:"+w] = 20
@@ -231,6 +232,24 @@ func (p c17) Run(c *core.Ctx) {
 	}
 	if c.WantSample() {
 		c.Sample(map[string]any{"script": scripts[0], "handler_log": pair.RLog.E[:min(8, len(pair.RLog.E))]})
+	}
+
+	// ---- a handler registered under the name of the built-in wait command is the one that is reached
+	{
+		st, _ := p.command(c, "wait", 1)
+		wp := &hast.Program{Readers: 1, Nodes: []*hast.Node{{Title: "Start", Body: []*hast.Stmt{st, {K: hast.SLine, Parts: []hast.Part{hast.Lit("after")}}}}}}
+		ws := hast.Render(wp, hast.L0())
+		wpair, err, pan := NewPair(wp, ws, PairOpts{Pre: c17Pre, ExtraCmds: []string{"wait"}}, nil)
+		if err != nil || pan != "" {
+			c.Violate("a script with a custom wait command failed to load", map[string]any{"readers": ws, "error": fmt.Sprint(err), "panic": pan})
+			return
+		}
+		want, got, diff := wpair.Step(0)
+		if diff != "" {
+			c.Violate("a command named like the built-in wait did not reach the handler the host registered under that name: "+diff, wpair.Detail(nil, want, got, diff))
+			return
+		}
+		c.Feature("host-handler-registered-as-wait")
 	}
 
 	// ---- an unregistered name is an error
